@@ -312,6 +312,34 @@ def _spans():
 FRAG_HOOKS = {"shift": shift_summary}
 
 
+def frag_hooks(p) -> dict:
+    """FRAG_HOOKS plus a stand-in for the structure search: an accessor that searches again on its own (instead of
+    reading the vetted `_match`) finds the same abstract match, so that what it does with it can still be judged"""
+    hooks = dict(FRAG_HOOKS)
+    try:
+        from .roles import regex_getter
+
+        rx_cls = p.get_class("moclo.regex.DNARegex")
+
+        def get_regex(I, f, args, kwargs):
+            return AObj(rx_cls, {}, name="rx")
+
+        def search(I, f, args, kwargs):
+            I.path.effects.append(("raw-search",))
+            return I.kernel_args[0].attrs.get("_match")
+
+        hooks[regex_getter(p).qualname] = get_regex
+        hooks["moclo.regex.DNARegex.search"] = search
+    except AnalysisError:
+        pass
+    return hooks
+
+
+def vetted(o, name="x") -> bool:
+    """the accessor read the object's vetted `_match` (structure found *and* screened), not a match it obtained otherwise"""
+    return any(e[0] == "getattr" and e[1] == name and e[2] == "_match" for e in o.path.effects) and not any(e[0] == "raw-search" for e in o.path.effects)
+
+
 def k7_fragments(ctx, pid: str, which=("K7", "K8", "K9", "K10")):
     r = ctx.report
     p = ctx.program
@@ -335,6 +363,8 @@ def k7_fragments(ctx, pid: str, which=("K7", "K8", "K9", "K10")):
             spec = spec_fn(I)
             out.append(("%s.fragment" % kid, raw.qualname, I.same_pieces(got, spec),
                         "%s must be %s: got %s" % (meth, show_pieces(spec), show_pieces(got))))
+            out.append(("%s.vetted-match" % kid, raw.qualname, vetted(o),
+                        "%s must work from the vetted self._match (structure found and screened for illegal sites), not from a match obtained otherwise" % meth))
             # the fragment is a linear slice and must keep saying so: nothing writes a topology into its annotations, nor
             # pours another record's annotations (which may declare a circle) into them
             claims = []
@@ -364,7 +394,7 @@ def k7_fragments(ctx, pid: str, which=("K7", "K8", "K9", "K10")):
                             "the fragment must be one slice of the (rotated) record, not a concatenation of pieces, so that Biopython keeps exactly the contained features; derivation: %r" % (d,)))
             return out
 
-        emit(ctx, run_paths(ctx, raw, make_args, facts, hooks=FRAG_HOOKS, post=post), raw.where())
+        emit(ctx, run_paths(ctx, raw, make_args, facts, hooks=frag_hooks(p), post=post), raw.where())
 
         # the same accessor on a plain SeqRecord (the library wraps whatever it is given): nothing, or the right fragment
         def make_args_plain(I):
@@ -471,9 +501,11 @@ def k10_accessors(ctx, pid: str):
             got = I.canon(pieces_of(o.value)) if o.kind == "return" and pieces_of(o.value) is not None else None
             ok = got is not None and I.same_pieces(got, spec) and isinstance(o.value, ASeq)
             return [("K10.accessor", raw.qualname, ok,
-                     "%s.%s must report group %d as a sequence (%s): got %s" % (ci.name, meth, g, show_pieces(spec), show_pieces(got) if got is not None else o))]
+                     "%s.%s must report group %d as a sequence (%s): got %s" % (ci.name, meth, g, show_pieces(spec), show_pieces(got) if got is not None else o)),
+                    ("K10.vetted-match", raw.qualname, vetted(o),
+                     "%s.%s must work from the vetted self._match (structure found and screened for illegal sites), not from a match obtained otherwise" % (ci.name, meth))]
 
-        emit(ctx, run_paths(ctx, raw, make_args, facts, hooks=FRAG_HOOKS, post=post), raw.where())
+        emit(ctx, run_paths(ctx, raw, make_args, facts, hooks=frag_hooks(p), post=post), raw.where())
 
 
 KERNELS = {
